@@ -140,26 +140,28 @@ Proof.
   induction (seq 0 (length (c_script c))) as [|x l IH]; cbn; lia.
 Qed.
 
-Lemma replies_in_body n c : count_ev (EvR n) (tev (body c)) = if Nat.eqb (c_id c) n then 1 else 0.
+Definition rwt (c : call) : nat := if wants_reply c then 1 else 0.
+
+Lemma replies_in_body n c : count_ev (EvR n) (tev (body c)) = if Nat.eqb (c_id c) n then rwt c else 0.
 Proof.
   pose proof (reply_in_handler n c) as Hh.
-  unfold body. destruct (c_kind c); rewrite ?tev_app; cbn [tev app]; rewrite ?count_ev_app, ?Hh; cbn [count_ev ev_eqb];
-    destruct (Nat.eqb (c_id c) n); lia.
+  unfold body, rwt, wants_reply. destruct (c_kind c); destruct (c_noreply c); rewrite ?tev_app; cbn [tev app negb];
+    rewrite ?count_ev_app, ?Hh; cbn [count_ev ev_eqb]; destruct (Nat.eqb (c_id c) n); lia.
 Qed.
 
-Lemma replies_in_dispatch n c : W (ind (EvR n)) (dispatch c) = if Nat.eqb (c_id c) n then 1 else 0.
+Lemma replies_in_dispatch n c : W (ind (EvR n)) (dispatch c) = if Nat.eqb (c_id c) n then rwt c else 0.
 Proof.
   unfold dispatch. rewrite W_app.
   change (W (ind (EvR n)) [IRead L_root; IRUnlock L_root]) with 0. cbn [Nat.add].
-  assert (Hb : W (ind (EvR n)) (body c) = if Nat.eqb (c_id c) n then 1 else 0)
+  assert (Hb : W (ind (EvR n)) (body c) = if Nat.eqb (c_id c) n then rwt c else 0)
     by (rewrite (W_flat _ _ (flat_body c)), wsum_ind_tev; apply replies_in_body).
-  assert (Hs : W (ind (EvR n)) [ISpawn c] = if Nat.eqb (c_id c) n then 1 else 0).
+  assert (Hs : W (ind (EvR n)) [ISpawn c] = if Nat.eqb (c_id c) n then rwt c else 0).
   { change (W (ind (EvR n)) [ISpawn c]) with (0 + wsum (ind (EvR n)) (body c) + 0).
     rewrite wsum_ind_tev, replies_in_body. lia. }
   destruct (c_kind c); try destruct (c_spawn c); assumption.
 Qed.
 
-Definition ids_eq (n : nat) (calls : list call) : nat := list_sum (map (fun c => if Nat.eqb (c_id c) n then 1 else 0) calls).
+Definition ids_eq (n : nat) (calls : list call) : nat := list_sum (map (fun c => if Nat.eqb (c_id c) n then rwt c else 0) calls).
 
 Lemma total_replies_init n calls : total (ind (EvR n)) (init calls) = ids_eq n calls.
 Proof.
@@ -170,13 +172,27 @@ Qed.
 Lemma list_sum_cons a l : list_sum (a :: l) = a + list_sum l.
 Proof. reflexivity. Qed.
 
-Lemma ids_eq_nodup n calls : NoDup (map c_id calls) -> ids_eq n calls = if memn n (map c_id calls) then 1 else 0.
+Lemma ids_eq_absent n calls : ~ In n (map c_id calls) -> ids_eq n calls = 0.
 Proof.
-  unfold ids_eq, memn. induction calls as [|c l IH]; [reflexivity|]. intros Hnd. cbn [map] in Hnd.
-  inversion Hnd as [|? ? Hx Hl]; subst. specialize (IH Hl). cbn [map existsb]. rewrite list_sum_cons, IH.
-  rewrite (Nat.eqb_sym n (c_id c)). destruct (Nat.eqb_spec (c_id c) n); cbn [orb]; [|reflexivity].
-  subst n. destruct (existsb (Nat.eqb (c_id c)) (map c_id l)) eqn:E; [|reflexivity].
-  exfalso. apply Hx. apply existsb_exists in E. destruct E as [x [Hin He]]. apply Nat.eqb_eq in He. now subst.
+  unfold ids_eq. induction calls as [|c l IH]; [reflexivity|]. cbn [map]. intros H. rewrite list_sum_cons, IH by (cbn in H; tauto).
+  destruct (Nat.eqb_spec (c_id c) n); [exfalso; apply H; now left|reflexivity].
+Qed.
+
+Lemma ids_eq_nodup calls c : NoDup (map c_id calls) -> In c calls -> ids_eq (c_id c) calls = rwt c.
+Proof.
+  unfold ids_eq. induction calls as [|x l IH]; [intros _ []|]. cbn [map]. intros Hnd Hin.
+  inversion Hnd as [|? ? Hx Hl]; subst. rewrite list_sum_cons. destruct Hin as [->|Hin].
+  - rewrite Nat.eqb_refl. fold (ids_eq (c_id c) l). rewrite ids_eq_absent by assumption. lia.
+  - destruct (Nat.eqb_spec (c_id x) (c_id c)) as [E|E]; [exfalso; apply Hx; rewrite E; now apply in_map|].
+    rewrite IH by assumption. lia.
+Qed.
+
+Lemma ids_eq_le n calls : NoDup (map c_id calls) -> ids_eq n calls <= if memn n (map c_id calls) then 1 else 0.
+Proof.
+  intros Hnd. destruct (memn n (map c_id calls)) eqn:Hm.
+  - apply memn_in in Hm. apply in_map_iff in Hm. destruct Hm as [c [<- Hc]]. rewrite ids_eq_nodup by assumption.
+    unfold rwt. destruct (wants_reply c); lia.
+  - rewrite ids_eq_absent; [lia|]. intros H. apply memn_in in H. congruence.
 Qed.
 
 (* at most one reply per call, none for ids that were never sent — at every moment *)
@@ -184,16 +200,22 @@ Theorem replies_at_most_once calls tr s n : NoDup (map c_id calls) -> reach call
   count_ev (EvR n) (log s) <= if memn n (map c_id calls) then 1 else 0.
 Proof.
   intros Hnd Hr. pose proof (count_conserved calls (EvR n) tr s Hr) as H.
-  rewrite total_replies_init, ids_eq_nodup in H by assumption. lia.
+  rewrite total_replies_init in H. pose proof (ids_eq_le n calls Hnd). lia.
 Qed.
 
-(* when everything has finished, exactly one each *)
+(* when everything has finished: exactly one each, and none for the calls that carry NO_REPLY_EXPECTED *)
 Theorem replies_all calls tr s : NoDup (map c_id calls) -> reach calls tr s -> all_done s ->
   replies_ok calls (log s) = true.
 Proof.
   intros Hnd Hr Hd. unfold replies_ok. apply forallb_forall. intros c Hc. apply Nat.eqb_eq.
   pose proof (count_conserved calls (EvR (c_id c)) tr s Hr) as H.
-  rewrite total_replies_init, ids_eq_nodup, (total_done _ s Hd) in H by assumption.
-  assert (Hm : memn (c_id c) (map c_id calls) = true) by (apply memn_in; now apply in_map).
-  rewrite Hm in H. lia.
+  rewrite total_replies_init, (ids_eq_nodup calls c Hnd Hc), (total_done _ s Hd) in H. unfold rwt in H. lia.
+Qed.
+
+(* a call that does not want a reply never gets one *)
+Theorem noreply_never calls tr s c : NoDup (map c_id calls) -> reach calls tr s -> In c calls -> wants_reply c = false ->
+  count_ev (EvR (c_id c)) (log s) = 0.
+Proof.
+  intros Hnd Hr Hc Hw. pose proof (count_conserved calls (EvR (c_id c)) tr s Hr) as H.
+  rewrite total_replies_init, (ids_eq_nodup calls c Hnd Hc) in H. unfold rwt in H. rewrite Hw in H. lia.
 Qed.
